@@ -9,6 +9,7 @@
 // parenthesised operands (also in the middle of every operator pair); line breaks between an operator and a unary minus;
 // IN with one element.
 // Also: [NOT] IN lists of one element inside larger expressions.
+// Also: 20 expressions with function arguments, CASE branches, IN lists, subscripts, casts and operator chains.
 include!("verif_grid_common.rs");
 include!("verif_grid_qcommon.rs");
 
@@ -135,6 +136,17 @@ fn verif_grid() {
         let (x, y) = (q(T, "SELECT k FROM t WHERE v NOT IN (1)", &input), q(T, "SELECT k FROM t WHERE v != 1", &input));
         if x == y && x.lines().map(|l| l.len()) == Some(1) { Ok(()) } else { Err(format!("WHERE v NOT IN (1) gives {:?}, WHERE v != 1 gives {:?}", x, y)) }
     });
+    // the same grouping inside function arguments, CASE branches, IN lists, subscripts and casts
+    for (i, (expr, reference)) in [
+        ("abs(a + b * c)", "abs((a + (b * c)))"), ("greatest(a + b * c, d - 1)", "greatest((a + (b * c)), (d - 1))"), ("abs(a) + b * c", "((abs(a)) + (b * c))"), ("-abs(a) * b", "((-(abs(a))) * b)"),
+        ("length(s) = 3 AND x", "((length(s) = 3) AND x)"), ("CASE WHEN a OR b AND c THEN x + y * z ELSE -x END", "CASE WHEN (a OR (b AND c)) THEN (x + (y * z)) ELSE (-x) END"),
+        ("CASE WHEN NOT a = b THEN 1 ELSE 2 END + 1", "((CASE WHEN (NOT (a = b)) THEN 1 ELSE 2 END) + 1)"), ("a IN (b + c * d, -1)", "(a IN (((b + (c * d))), (-1)))"),
+        ("xs[a + b * c]", "(xs[(a + (b * c))])"), ("xs[1] * xs[2] + xs[3]", "(((xs[1]) * (xs[2])) + (xs[3]))"), ("a + b::real * c", "(a + ((b::real) * c))"), ("-xs[1]::real", "(-((xs[1])::real))"),
+        ("EXTRACT(YEAR FROM ts) + 1 > 2020 AND b", "(((EXTRACT(YEAR FROM ts) + 1) > 2020) AND b)"), ("a = 1 OR b = 2 AND NOT c = 3 OR d IS NULL", "(((a = 1) OR ((b = 2) AND (NOT (c = 3)))) OR (d IS NULL))"),
+        ("a - b - c - d", "(((a - b) - c) - d)"), ("a / b / c * d", "(((a / b) / c) * d)"), ("a < b = c", "((a < b) = c)"), ("NOT NOT a = b", "(NOT (NOT (a = b)))"), ("- - a", "(-(-a))"), ("a - - - b", "(a - (-(-b)))"),
+    ].iter().enumerate() {
+        g.case(&format!("nested-{}", i), move || same(expr, reference));
+    }
     g.case("in-one-element", || match parsing::parse("SELECT a FROM t WHERE a IN (1)") { Ok(_) => Ok(()), Err(e) => Err(format!("IN with a list of one element is rejected: {}", e)) });
     g.case("in-one-element-means-equals", || {
         let input = ["k=a v=1", "k=b v=2", "k=c v=", "k=d v=1"];
